@@ -43,7 +43,7 @@ package rib
 //@ ensures[answered-or-held] result2 == nil && ni != "" ==> (exists i in 0..len(result0) :: result0[i].ID == op.GetId())
 //@    || (exists i in 0..len(result1) :: result1[i].ID == op.GetId()) || op.GetId() in dom(r.pendingEntries)
 //@ assigns ribState, spawned, hookCount
-//@ props C01 C02 C06 C12:safety C12:ensures#fatal
+//@ props C01 C02 C06 C12:safety C12:ensures#fatal C12:ensures#fatal-only-if
 
 // opDeletable: the payload of op names a key a DELETE can address.
 //@ pred opDeletable(op *spb.AFTOperation) = op != nil && (istype(op.Entry, *spb.AFTOperation_Ipv4) ==> op.GetIpv4() != nil) && (istype(op.Entry, *spb.AFTOperation_Ipv6) ==> op.GetIpv6() != nil)
@@ -1198,7 +1198,7 @@ package rib
 //@ loop 1 invariant forall k: uint64 :: old(retried)[k] ==> retried[k]
 //@ ensures[retried-monotone] forall k: uint64 :: old(retried)[k] ==> retried[k]
 //@ assigns ribState, *oks, *fails, contents(installStack), spawned, hookCount
-//@ props C01 C02 C06 C07:pre:rib.RIB.addEntryInternal C07:at:ack-installed C12:safety C12:ensures#fatal-unknown-ni C12:ensures#answered-or-held
+//@ props C01 C02 C06 C07:pre:rib.RIB.addEntryInternal C07:at:ack-installed C12:safety C12:ensures#fatal-unknown-ni C12:ensures#answered-or-held C12:ensures#fatal-only-if
 
 // ---- construction and hooks (C16) ----
 // hookInv: every network instance notifies through the hook last given to SetPostChangeHook,
